@@ -8,6 +8,7 @@ import (
 
 	"go.opentelemetry.io/otel/attribute"
 	"go.opentelemetry.io/otel/metric"
+	"go.opentelemetry.io/otel/sdk/instrumentation"
 	"go.opentelemetry.io/otel/sdk/metric/exemplar"
 	"go.opentelemetry.io/otel/sdk/metric/metricdata"
 	"go.opentelemetry.io/otel/sdk/resource"
@@ -54,6 +55,7 @@ func HarnessC12Views() {
 		hist bool
 		filt bool
 		miss bool
+		crit *Instrument // criteria other than {Name: "c"}
 	}
 	table := []vk{
 		{},                       // no view in this slot
@@ -64,6 +66,15 @@ func HarnessC12Views() {
 		{name: "c", filt: true},  // attribute filter keeping k
 		{name: "c", hist: true},  // re-aggregate as histogram
 		{name: "x", miss: true},  // criteria that do not match
+		// wildcard names combined with the other criteria (the counter "c" has
+		// no unit or description and lives in scope "m")
+		// (a wildcard view cannot rename)
+		{hist: true, crit: &Instrument{Name: "*", Scope: instrumentation.Scope{Name: "m"}}},
+		{hist: true, miss: true, crit: &Instrument{Name: "*", Scope: instrumentation.Scope{Name: "other"}}},
+		{drop: true, miss: true, crit: &Instrument{Name: "?", Kind: InstrumentKindHistogram}},
+		{hist: true, miss: true, crit: &Instrument{Name: "*", Unit: "ms"}},
+		{drop: true, miss: true, crit: &Instrument{Name: "c*", Description: "zz"}},
+		{drop: true, miss: true, crit: &Instrument{Name: "*", Scope: instrumentation.Scope{Name: "m", Version: "v9"}}},
 	}
 	nv := vndParam("VIEWS", 2)
 	var views []View
@@ -77,6 +88,9 @@ func HarnessC12Views() {
 		crit := Instrument{Name: "c"}
 		if k.miss {
 			crit = Instrument{Name: "other"}
+		}
+		if k.crit != nil {
+			crit = *k.crit
 		}
 		st := Stream{Name: k.name}
 		if k.drop {
